@@ -60,16 +60,24 @@ def run(ctx):
         "order relations between floats are compared directly with a slack of 5e-15 absolute error in the chord length "
         "(2*sqrt(x)*5e-15 on the squared chord x); 'within the documented error' of positive distances is NOT decided",
         "cross-face DistanceToCell == 0 is not predicted (only same-root pairs, where the uv rectangles share bit-identical bounds)",
-        "the same model cases are embedded under every face of the root's parity (the tables depend on face % 2 only)",
+        "the same model cases are embedded under every face of the root's parity (the tables depend on face % 2 only); "
+        "RectBound/CapBound are evaluated for the cell with the same path on all six faces (own vertices, centre, 84 descendant centres)",
+        "long edge targets (95..175 degrees through / near the antipode of the cell centre): MaxDistanceToEdge is compared with "
+        "the library's own point-to-edge and point-to-point distances of sampled cell points, and with 4 - DistanceToEdge(-a,-b)",
     ]
     runs = []
     L_top = 4
     # top embedding: one TLC run per parity, replayed under faces of that parity
-    for parity in ([rnd.randrange(2)] if q else [0, 1]):
+    # (quick: the full depth for one parity under two of its faces, depth 2 for the other parity under
+    # all three of its faces; the bounds of every model cell are evaluated on all six faces anyway)
+    first = rnd.randrange(2)
+    for parity in [first, 1 - first]:
         faces = [f for f in range(6) if f % 2 == parity]
-        if q:
+        full = (not q) or parity == first
+        if q and full:
             faces = rnd.sample(faces, 2)
-        root, cases = _gen(ctx, L_top, parity, [], 31 if q else 5, rnd.randrange(5), 5 if q else 1, rnd.randrange(64))
+        root, cases = _gen(ctx, L_top if full else 2, parity, [], 31 if q else 5, rnd.randrange(5), 5 if q else 1,
+                           rnd.randrange(64))
         for f in faces:
             runs += _cases(root, cases, f)
     # deep embeddings: a leaf-level anchor (model probes are real leaf cells) and mid-level anchors
